@@ -47,6 +47,9 @@ func (g *Gen) URILine() string {
 	if g.chance(0.2) {
 		s = "https://example.com/" + s
 	}
+	if g.chance(0.01) {
+		s += "/" + strings.Repeat("seg0", 1030+g.R.Intn(40))
+	}
 	return s
 }
 
@@ -56,6 +59,10 @@ func (g *Gen) QuotedStr(min int) string {
 	s := g.str(alpha, min, 25)
 	if g.chance(0.1) {
 		s += "é✓"
+	}
+	if g.chance(0.02) {
+		// a data: URI or a long token: longer than the 4 KiB line buffers readers like to use
+		s += strings.Repeat("Ab0/", 1030+g.R.Intn(40))
 	}
 	return s
 }
